@@ -12,6 +12,7 @@ if TYPE_CHECKING:
 
     from biodivine_aeon import Regulation, VariableId
 
+from copy import copy
 from typing import cast
 
 from biodivine_aeon import BooleanNetwork, RegulatoryGraph, SignType, SymbolicContext
@@ -152,6 +153,21 @@ def cleanup_network(network: BooleanNetwork) -> BooleanNetwork:
         raise AssertionError(
             f"Parametrized networks are not supported. Found implicit parameters: {names}."
         )
+
+    # A free input never changes its value. Give it an explicit identity update
+    # function: otherwise, AEON's symbolic representation treats it as a
+    # parameter (color), and the symbolic attractor computations would merge
+    # the attractors that belong to different input valuations.
+    free_inputs = [
+        v for v in network.variables() if network.get_update_function(v) is None
+    ]
+    if len(free_inputs) > 0:
+        network = copy(network)
+        for v in free_inputs:
+            network.ensure_regulation(
+                {"source": v, "target": v, "essential": True, "sign": "+"}
+            )
+            network.set_update_function(v, network.get_variable_name(v))
 
     return network.infer_valid_graph()
 
